@@ -72,6 +72,21 @@ def first_exit(exits: Sequence[Tuple[Sequence[Term], Any]], atoms: Dict[Term, bo
 
 
 # ----------------------------------------------------------------------------- canonical leaves
+def _counted(y: Any):
+    """A number that counts conditions: `sum(<boolean> for ...)` over explicit elements, or the length of a
+    collection of explicit, conditionally included elements -> [(guards, boolean value or None)]."""
+    y = T.strip(y)
+    if not T.is_term(y):
+        return None
+    if y[0] == "agg" and y[1] == "sum" and not y[3] and all(not e[3] for e in y[2][1]):
+        return [(e[2], e[1]) for e in y[2][1]]
+    if y[0] == "call" and y[1] == ("glob", "len") and len(y[2]) == 1 and not y[3]:
+        b = T.strip(y[2][0])
+        if T.is_term(b) and b[0] == "bag" and b[1] and all(not e[3] and T.strip(e[1])[0] != "star" for e in b[1]) and any(e[2] for e in b[1]):
+            return [(e[2], None) for e in b[1]]
+    return None
+
+
 def canon_leaf(t: Term) -> Tuple[Term, bool]:
     """Atomic condition -> (canonical leaf, polarity).  `a <= b` is `not (b < a)`, `!=` is
     `not ==`, `not in` is `not in`, `is not` is `not is`."""
@@ -173,15 +188,14 @@ def leaves(t: Term, truthy=None) -> List[Term]:
             for br in (y[2], y[3]):
                 if T.strip(br) != T.NONE:
                     walk(("cmp", x[1], br, x[3]) if i == 2 else ("cmp", x[1], x[2], br))
-        elif x[0] == "cmp" and any(T.strip(y)[0] == "agg" and T.strip(y)[1] == "sum" and all(not e[3] for e in T.strip(y)[2][1]) for y in (x[2], x[3])) \
-                and all(T.strip(y)[0] in ("agg", "const") for y in (x[2], x[3])):
+        elif x[0] == "cmp" and any(_counted(y) is not None for y in (x[2], x[3])) \
+                and all(_counted(y) is not None or T.strip(y)[0] == "const" for y in (x[2], x[3])):
             for y in (x[2], x[3]):
-                y = T.strip(y)
-                if y[0] == "agg":
-                    for e in y[2][1]:
-                        for g in e[2]:
-                            walk(g[1])
-                        walk(e[1])
+                for gs, v in (_counted(y) or ()):
+                    for g in gs:
+                        walk(g[1])
+                    if v is not None:
+                        walk(v)
         else:
             if truthy is not None and truthy(x) is not None:
                 return
@@ -245,11 +259,12 @@ def eval_leaves(t: Term, assign: Dict[Term, bool], truthy=None) -> bool:
             x = T.strip(x)
             if x[0] == "const" and isinstance(x[1], int) and not isinstance(x[1], bool):
                 return x[1]
-            if x[0] == "agg" and x[1] == "sum" and not x[3] and all(not e[3] for e in x[2][1]):
-                return sum(1 for e in x[2][1] if all(eval_leaves(g[1], assign, truthy) == g[2] for g in e[2]) and eval_leaves(e[1], assign, truthy))
+            cn = _counted(x)
+            if cn is not None:
+                return sum(1 for gs, v in cn if all(eval_leaves(g[1], assign, truthy) == g[2] for g in gs) and (v is None or eval_leaves(v, assign, truthy)))
             return None
         na, nb = num(t[2]), num(t[3])
-        if na is not None and nb is not None and (T.strip(t[2])[0] == "agg" or T.strip(t[3])[0] == "agg"):
+        if na is not None and nb is not None and (_counted(t[2]) is not None or _counted(t[3]) is not None):
             return {"<": na < nb, "<=": na <= nb, "==": na == nb, "!=": na != nb}[t[1]]
     l, p = canon_leaf(t)
     if l not in assign:
